@@ -122,19 +122,19 @@ Fixpoint gmatch_loop (n : nat) (si : Z) (allowEmpty : bool) (acc : list (list cv
 Definition gmatch_im (si : Z) : list (list cval) * dres :=
   gmatch_loop (S (length s) + 2) si true [].
 
-(* replF for a string replacement: regexp "%." (any byte but \n after %) *)
+(* replF for a string replacement: regexp "(?s)%.?" — % followed by any byte,
+   or a lone % at the end (an error) *)
 Fixpoint expand_im (repl : list Z) (cstrings : Z -> list Z) (maxIndex : Z) : option derr * list Z :=
   match repl with
-  | 37 :: ((b :: r) as tl) =>
-    if b =? 10 then
-      let '(e, out) := expand_im tl cstrings maxIndex in (e, 37 :: out)
-    else if inr 48 57 b then
+  | 37 :: b :: r =>
+    if inr 48 57 b then
       let idx := b - 48 in
       if maxIndex <? idx then (Some (DEInvalidCaptureIdx idx), [])
       else let '(e, out) := expand_im r cstrings maxIndex in (e, cstrings idx ++ out)
     else if b =? 37 then
       let '(e, out) := expand_im r cstrings maxIndex in (e, 37 :: out)
     else (Some DEInvalidPct, [])
+  | [37] => (Some DEInvalidPct, [])
   | x :: r => let '(e, out) := expand_im r cstrings maxIndex in (e, x :: out)
   | [] => (None, [])
   end.
@@ -165,16 +165,17 @@ Fixpoint gsub_loop (n : nat) (repl : list Z) (maxn : Z) (g : gstate) : dres * gs
   | S n' =>
     if g_count g =? maxn then (DNil, g)
     else
-      match a_res (api false p fuel s (g_si g) B) with
+      match a_res (api true p fuel s (g_si g) B) with     (* pat.MatchFromStart *)
       | MFuel => (DFuel, g)
       | MNil | MCaps [] => (DNil, g)
       | MCaps (((st, en) :: _) as l) =>
         let doit := g_allow g || negb (st =? g_si g) || negb (en =? g_si g) in
         let step (sb : list Z) (sj : Z) (wrote : bool) :=
           let ae := en <=? st in
-          gsub_loop n' repl maxn
-            (mkG (if ae then st + 1 else en) sj sb wrote (g_count g + 1) ae
-                 (g_skipped g || negb doit)) in
+          let g' := mkG (if ae then st + 1 else en) sj sb wrote (g_count g + 1) ae
+                        (g_skipped g || negb doit) in
+          if p_sanchor p then (DNil, g')     (* matchCount++; break *)
+          else gsub_loop n' repl maxn g' in
         if doit then
           match repl_im repl l with
           | None => (DPanic, g)
@@ -189,23 +190,20 @@ Fixpoint gsub_loop (n : nat) (repl : list Z) (maxn : Z) (g : gstate) : dres * gs
       end
   end.
 
-(* result string, count, flags (skipped-empty-match, empty-builder-after-write) *)
-Definition gsub_im (repl : list Z) (maxn : Z) : dres * bool * bool :=
+(* result string, count, flag: the loop skipped an empty match *)
+Definition gsub_im (repl : list Z) (maxn : Z) : dres * bool :=
   match gsub_loop (S (length s) + 2) repl maxn (mkG 0 0 [] false 0 true false) with
   | (DNil, g) =>
     let res :=
-      match g_sb g with
-      | [] => Some s
-      | sb => if g_sj g <? slen s
-              then match slice s (g_sj g) (slen s) with Some t => Some (sb ++ t) | None => None end
-              else Some sb
-      end in
+      if negb (g_wrote g) then Some s
+      else if g_sj g <? slen s
+           then match slice s (g_sj g) (slen s) with Some t => Some (g_sb g ++ t) | None => None end
+           else Some (g_sb g) in
     match res with
-    | Some r => (DVals [CStr r; CPos (g_count g)], g_skipped g,
-                 g_wrote g && match g_sb g with [] => true | _ => false end)
-    | None => (DPanic, false, false)
+    | Some r => (DVals [CStr r; CPos (g_count g)], g_skipped g)
+    | None => (DPanic, false)
     end
-  | (r, g) => (r, g_skipped g, false)
+  | (r, g) => (r, g_skipped g)
   end.
 End IM.
 
